@@ -2028,12 +2028,12 @@ void value_t::print(std::ostream&       _out,
       justify(out, to_string(), first_width,
               flags & AMOUNT_PRINT_RIGHT_JUSTIFY, true);
     else
-      out << as_long();
+      out << to_string();       // as text: a number with a huge field width is padded on the stack by libstdc++
     break;
 
   case AMOUNT: {
     if (as_amount().is_zero()) {
-      out << 0;
+      out << "0";
     } else {
       std::ostringstream buf;
       as_amount().print(buf, flags);
